@@ -12,7 +12,7 @@ ASSUMPTIONS = c01.ASSUMPTIONS + [
 
 
 def run(tier, seed):
-    r = c01.explore("C03", PROPS | {"C01"}, [("sort", 0.8), ("boundary_nowin", 0.3)], tier, seed, 900, 40000, ASSUMPTIONS,
+    r = c01.explore("C03", PROPS | {"C01"}, [("sort", 0.8), ("boundary_nowin", 0.3), ("shared", 0.5)], tier, seed, 900, 40000, ASSUMPTIONS,
                     "For C03 the deciding executions are those whose model result is ordered (ordered_results) or keeps the left order through a right/full join (partially_ordered_results).")
     # 'take n and take a..b return exactly the rows at those positions': in this sort/take-centred workload a
     # difference in WHICH rows come back is a C03 matter too; defects of that kind already listed for C01 apply
